@@ -279,6 +279,38 @@ def partitions(tier, seed):
                           '    return ok and frame.unmarshal(hx.fix(w))[2].routing_key == s\n' % (lit, n),
                           PRE, 150, family='overlong',
                           bound='short string / table key / routing key %r*%d' % (lit, n), rep={'x': 1}))
+    parts.append(Part('lone_surrogates', [('x', 'int')], ['-2**15 <= x < 2**15'],
+                      'def body(x):\n'
+                      '    # not encodable text: every encoder must raise, or the output must decode back to the input\n'
+                      '    ok = True\n'
+                      '    for s in ("\\udcc3\\udca9", "caf\\udce9", "\\ud800", "a\\udfff", "\\udc80", "report-\\udcf0\\udc9f\\udc90\\udcb0.txt"):\n'
+                      '        for fn, dn in ((encode.short_string, decode.short_str), (encode.long_string, decode.long_str),\n'
+                      '                       (encode.encode_table_value, decode.embedded_value)):\n'
+                      '            d = try_encode(fn, s)\n'
+                      '            if d is not None:\n'
+                      '                try:\n'
+                      '                    c, got = dn(bytes(d))\n'
+                      '                except Exception:\n'
+                      '                    return False\n'
+                      '                ok = ok and c == len(d) and type(got) is str and got == s\n'
+                      '        d = try_encode(encode.field_table, hx.table([(s, x)]))\n'
+                      '        if d is not None:\n'
+                      '            try:\n'
+                      '                c, got = decode.field_table(bytes(d))\n'
+                      '            except Exception:\n'
+                      '                return False\n'
+                      '            ok = ok and len(got) == 1 and s in got\n'
+                      '        try:\n'
+                      '            w = frame.marshal(commands.Basic.Publish(0, "", s), 1)\n'
+                      '        except Exception:\n'
+                      '            continue\n'
+                      '        try:\n'
+                      '            ok = ok and frame.unmarshal(w)[2].routing_key == s\n'
+                      '        except Exception:\n'
+                      '            return False\n'
+                      '    return ok\n',
+                      PRE, 150, family='overlong', bound='6 strings with lone surrogates (incl. the surrogateescape range '
+                      'U+DC80..U+DCFF) through the string encoders, a table key and a routing key', rep={'x': 1}))
     parts.append(Part('decimals', [('neg', 'bool'), ('t', 'bytes')], ['len(t) == 1'], DECIMALS, PRE, 200,
                       family='decimal', bound='27 boundary Decimals (scale, 32-bit unscaled, > 28 digits, NaN, '
                                               'infinities, huge exponents), both signs', rep={'neg': True, 't': {'__bytes__': '00'}}))
